@@ -2256,7 +2256,12 @@ def run(prop_id, tier, seed, replay=None):
             # (a harmless rewrite changes expressions too): it widens this run's crash search to the
             # thorough tier's case counts and is reported in the evidence.
             import panic_sites
-            site_report = panic_sites.compare()
+            try:
+                site_report = panic_sites.compare()
+            except Exception as e:      # the inventory is data for this run, never a verdict: a scanner problem must not break the check
+                log(f"[C06] NOTE: the panic-site inventory could not be computed ({type(e).__name__}: {e}); crash search widened")
+                site_report = {"sites_in_source": 0, "proved_in_checked_model": [], "reviewed_cannot_fail": [],
+                               "unaccounted": ["<inventory unavailable>"], "stale_labels": []}
             if site_report["unaccounted"] or site_report["stale_labels"]:
                 log(f"[C06] NOTE: the panic-site inventory of /repo/src differs from Model/Checked.v "
                     f"(not covered by the theorem: {site_report['unaccounted'][:6]}; no longer in the source: "
